@@ -1,5 +1,6 @@
 import NmVerif.Proto
 import NmVerif.Index.Broadcast
+import NmVerif.Index.BroadcastExpr
 namespace NmVerif.Driver.C06
 open NmVerif NmVerif.Proto
 
@@ -9,8 +10,67 @@ def fmtBools (l : List Bool) : String := fmtNats (l.map (fun b => if b then 1 el
 def provData (v : IxView) (base : Int) : Option (List Int) :=
   (allIdx v.dst).mapM (fun d => (v.map d).map (fun i => base + (computeOffset i (strides v.src) : Int)))
 
+/-! ### mixed-kind harness (harness/gen_kinds_c06.py): one answer line of `name=value` clauses.  The model is
+kind-blind — the property says the container kind of a shape must not matter. -/
+
+def fmtOptShape : Option Shape → String
+  | some r => fmtNats r
+  | none => "nothing"
+
+/-- `shape=<list>;data=<row-major elements>` of one view over an operand filled with `base + flat id` -/
+def arrStr (v : IxView) (base : Int) : Option String :=
+  (provData v base).map (fun l => s!"shape={fmtNats v.dst};data={fmtInts l}")
+
+/-- the operands `order` of `ss` (operand `j` holds `1000 j + flat id`) through `broadcast_arrays` -/
+def kViews (ss : List Shape) (order : List Nat) : Option (Option (List (IxView × Int))) := do
+  let sel ← order.mapM (fun j => ss[j]?)
+  pure ((broadcastArraysViews sel).map (fun vs => vs.zip (order.map (fun (j : Nat) => 1000 * Int.ofNat j))))
+
+def kBarr (ss : List Shape) (order : List Nat) : Option String := do
+  match ← kViews ss order with
+  | none => pure "nothing"
+  | some vbs => do
+    let parts ← vbs.mapM (fun (v, b) => arrStr v b)
+    pure ("|".intercalate parts)
+
+/-- element-wise sum of the broadcast operands (view::add) -/
+def kAdd (ss : List Shape) (order : List Nat) : Option String := do
+  match ← kViews ss order with
+  | none => pure "nothing"
+  | some vbs => do
+    let datas ← vbs.mapM (fun (v, b) => provData v b)
+    match vbs.head?, datas with
+    | some (v0, _), d0 :: ds =>
+      let sum := ds.foldl (fun acc d => List.zipWith (· + ·) acc d) d0
+      pure s!"shape={fmtNats v0.dst};data={fmtInts sum}"
+    | _, _ => none
+
+def kClauses (a : Args) (f : List Shape → List Nat → Option String) : Option String := do
+  let ss ← a.natLists "shapes"
+  let orders ← a.natLists "orders"
+  let names := ((a.get? "names").getD "").splitOn ","
+  if names.length ≠ orders.length then none
+  let parts ← (names.zip orders).mapM (fun (n, o) => (f ss o).map (fun t => s!" {n}={t}"))
+  pure ("ok" ++ String.join parts)
+
 def handle : Handler := fun op a =>
   match op with
+  | "kexpr" => orBad do
+      let ss ← a.natLists "shapes"
+      let ts ← a.get? "terms"
+      let parts ← (ts.splitOn ",").mapM (fun t =>
+        match t.splitOn ":" with
+        | [n, e] => (BExpr.parse e).map (fun x => s!" {n}={fmtOptShape (x.eval ss)}")
+        | _ => none)
+      pure ("ok" ++ String.join parts)
+  | "kbto" => orBad do
+      let src ← a.nats "src"
+      let dst ← a.nats "dst"
+      match broadcastToView src dst with
+      | none => pure "ok v=nothing"
+      | some v => (arrStr v 0).map (fun t => s!"ok v={t}")
+  | "kbarr" => orBad (kClauses a kBarr)
+  | "kadd" => orBad (kClauses a kAdd)
   | "bshape" => orBad do
       let ss ← a.natLists "shapes"
       if ss.length < 2 then none
